@@ -1,6 +1,6 @@
 HOOK_COMMITS = ["bc7826eeb31079b932557c6566a10da9b9acc9ce"]
 _PENDING = "check not built yet in this round (planned, see DESIGN.md section 9); not a statement that the technique cannot apply"
-NOT_APPLICABLE = {p: _PENDING for p in ["C05","C11","C12","C16"]}
+NOT_APPLICABLE = {p: _PENDING for p in ["C05","C16"]}
 TEXT = {
  "C17": {
   "text": "Lean mirror of integer.h / dyadic_rational.h / rational.h; theorems for every modulus m>=2 and every operand state that each "
@@ -98,6 +98,32 @@ TEXT = {
   "design_ref": "5.19",
   "note": "clause (c) is runtime monitoring on generated inputs, not proof (no executable Lean model can exhibit out-of-bounds access); variable_db/variable_order counters are opaque and observed only via sanitizers",
   "technique": "Lean 4 invariant proof (refcount protocol) + correspondence with aliased/pre-used outputs + sanitizer monitoring",
+ },
+ "C11": {
+  "text": "lp_polynomial_roots_isolate under a partial assignment is compared root by root (proved exact comparison) with the model: "
+          "candidates = real roots of the eliminant G(y) obtained by eliminating the assigned variables with Sylvester determinants "
+          "(isolated by the proved root counter), each candidate accepted by a sign change of the specialised polynomial across its "
+          "isolating interval (C11_sign_change_root, intermediate value theorem), rejected by interval evaluation "
+          "(C10_sign_interval_only, unconditional), or decided by the algebraic zero test (C10_sign_sound) for roots of even "
+          "multiplicity; identically vanishing specialisations give no roots (C11_identically_zero). Trusted, not formalised: every "
+          "real root of the specialised polynomial is a root of a non-zero eliminant. Generator: rational specialisations, algebraic "
+          "coefficients with spurious conjugate candidates, vanishing leading coefficients and contents, double and rational roots.",
+  "design_ref": "5.11",
+  "note": "cases whose algebraic zero test exceeds Sylvester order 8, or whose eliminant degenerates to 0 while the specialisation does not, are skipped and counted",
+  "technique": "Lean 4 proved certificates (validator) + per-output validation of the C results",
+ },
+ "C12": {
+  "text": "lp_polynomial_constraint_get_feasible_set and lp_polynomial_root_constraint_get_feasible_set are compared interval by interval "
+          "(end points by the proved exact comparison, strictness flags literally, number of intervals = normal form) with the model: "
+          "exact roots (C11), exact signs of the specialised polynomial at rational sample points of the 2n+1 cells (C10), sweep of the "
+          "maximal runs of satisfied cells; all six sign conditions, both polarities, root indices 0..deg+1. Proved: the negation table "
+          "(C12_negate) and, for every root value, index, condition, polarity and real v, membership in the model's root-constraint set "
+          "iff the (possibly negated) condition holds for sign(v - root_k), false / true everywhere with fewer roots "
+          "(C12_root_constraint). The sweep itself is executable and tied by correspondence; its set-theoretic theorem is listed as "
+          "the next proof obligation in DESIGN.",
+  "design_ref": "5.12",
+  "note": "the C++ helper poly::infeasible_regions is not exercised (C harnesses only)",
+  "technique": "Lean 4 proved root-constraint table and sign procedure (validator) + per-output validation of the C results",
  },
  "C10": {
   "text": "lp_polynomial_sgn / _evaluate / _constraint_evaluate are judged on every run by the exact-sign procedure of the Lean model: "
